@@ -301,6 +301,7 @@ where
     L: Flat + Length,
 {
     unsafe fn validate_unchecked(bytes: &[u8]) -> Result<(), Error> {
+        let bytes = unsafe { bytes.get_unchecked(..floor_mul(bytes.len(), Self::ALIGN)) };
         for item_bytes in DataIter::<'_, T, L, _>::new(bytes) {
             T::validate(item_bytes?)?;
         }
